@@ -637,7 +637,8 @@ def flatten_shared(ctx, n):
             return hash(self.args)
     rng = ctx.rng
     for _ in range(n):
-        pool = [KeyError(1), IndexError(2), Eq(5), Eq(5), Eq(6), ValueError(3)]
+        pool = [KeyError(1), IndexError(2), Eq(5), Eq(5), Eq(6), ValueError(3),
+                ExceptionGroup('a group is one failure of one child', [KeyError(9), ValueError(8)])]
         leaves = []
 
         def tree(depth):
@@ -665,8 +666,61 @@ def flatten_shared(ctx, n):
                            'all be kept)' % (got, leaves), family='flatten-shared')
 
 
+def root_type_handlers(ctx):
+    """directed family (implementation only, expectations by the documented rule): handlers that list the root type
+    `Exception` against failures with and without a nested Concurrent among their children (Concurrent itself is a
+    BaseException, not an Exception, so a nested failure is NOT matched by `Exception`), and construction through an already
+    specialised class, which is refused"""
+    from usim import Concurrent
+    flat = lambda: Concurrent(ValueError(1), KeyError(2))                    # noqa
+    nested = lambda: Concurrent(ValueError(1), Concurrent(KeyError(2)))      # noqa
+    deep = lambda: Concurrent(Concurrent(ValueError(1), Concurrent(KeyError(2))))   # noqa
+    rows = [
+        ('flat', flat, 'Concurrent[Exception]', lambda: Concurrent[Exception], True),
+        ('flat', flat, 'Concurrent[Exception, ...]', lambda: Concurrent[Exception, ...], True),
+        ('flat', flat, 'Concurrent[Exception, Concurrent[KeyError]]', lambda: Concurrent[Exception, Concurrent[KeyError]], False),
+        ('nested', nested, 'Concurrent[Exception]', lambda: Concurrent[Exception], False),
+        ('nested', nested, 'Concurrent[Exception, ...]', lambda: Concurrent[Exception, ...], True),
+        ('nested', nested, 'Concurrent[Exception, Concurrent[KeyError]]', lambda: Concurrent[Exception, Concurrent[KeyError]], True),
+        ('nested', nested, 'Concurrent[Exception, Concurrent[Exception]]', lambda: Concurrent[Exception, Concurrent[Exception]], True),
+        ('nested', nested, 'Concurrent[LookupError, ValueError]', lambda: Concurrent[LookupError, ValueError], False),
+        ('deep', deep, 'Concurrent[Exception]', lambda: Concurrent[Exception], False),
+        ('deep', deep, 'Concurrent[Concurrent[Exception]]', lambda: Concurrent[Concurrent[Exception]], False),
+        ('deep', deep, 'Concurrent[Concurrent[Exception, Concurrent[Exception]]]', lambda: Concurrent[Concurrent[Exception, Concurrent[Exception]]], True),
+    ]
+    for name, mk, hname, mkh, want in rows:
+        case = {'kind': 'root-type-handler', 'failure': name, 'handler': hname}
+        try:
+            e, H = mk(), mkh()
+            got = (isinstance(e, H), issubclass(type(e), H))
+        except BaseException as err:   # noqa
+            ctx.fail(case, 'raised %r' % (err,), family='root-type-handlers')
+            continue
+        ctx.count(('root-type', name, hname), nontrivial=True)
+        ctx.bump('family:root-type-handlers')
+        if got != (want, want):
+            ctx.fail(case, 'isinstance / issubclass of the %s failure %r against %s: %r, the documented rule says %r'
+                     % (name, e, hname, got, want), family='root-type-handlers')
+    for hname, mkc in (('Concurrent[LookupError](KeyError())', lambda: Concurrent[LookupError](KeyError(1))),
+                       ('Concurrent[KeyError, ...](KeyError(), ValueError())', lambda: Concurrent[KeyError, ...](KeyError(1), ValueError(2)))):
+        case = {'kind': 'root-type-handler', 'construction': hname}
+        ctx.count(('root-type', hname), nontrivial=True)
+        try:
+            x = mkc()
+        except TypeError:
+            continue
+        except BaseException as err:   # noqa
+            ctx.fail(case, 'raised %r' % (err,), family='root-type-handlers')
+            continue
+        # not refused: then the type must at least be the one that depends on the children only
+        if type(x) is not type(Concurrent(*x.children)):
+            ctx.fail(case, '%s built an instance of %r; the type of a failure depends on the set of its children only (%r)'
+                     % (hname, type(x), type(Concurrent(*x.children))), family='root-type-handlers')
+
+
 def run(ctx):
     flatten_shared(ctx, ctx.n(60, 1500))
+    root_type_handlers(ctx)
     w = World()
     d10 = []
     raised, excs, handlers, Hs = run_table(ctx, w, d10)
